@@ -1250,6 +1250,20 @@ def check_cast(D, ty: str, pv) -> Optional[C.Failing]:
         return C.Failing("cast:str-to-normalizedString:accepted", f"trivial_cast({pv[1]!r}, NormalizedString) returns {r}", case, r, "ValueError")
     if r[0] == "raise" and r[1] not in ("ValueError", "TypeError"):
         return C.Failing(f"cast:wrong-exception:{r[1]}", f"trivial_cast({pv}, {ty}) raised {r[1]}", case)
+    if r[0] != "raise":
+        # whatever an accepted cast returns is a value OF THE TARGET TYPE: written under that type it is a valid literal of it
+        import datetime
+        val = {"int": lambda: int(pv[1]), "bool": lambda: bool(pv[1]), "float": lambda: 1.5, "str": lambda: pv[1],
+               "bytes": lambda: b"ab", "date": lambda: datetime.date(*pv[1:]), "datetime": lambda: datetime.datetime(*pv[1:], 12, 30),
+               "none": lambda: None}[pv[0]]()
+        try:
+            v = D.trivial_cast(val, getattr(D, ty))
+            lit = D.xsd_repr(v)
+        except Exception as e:
+            return C.Failing(f"cast:result-not-writable:{ty}:{pv[0]}", f"trivial_cast({val!r}, {ty}) is accepted but xsd_repr of the result raises {type(e).__name__}", case)
+        if not xsd_valid(ty, lit):
+            return C.Failing(f"cast:result-not-a-literal:{ty}:{pv[0]}",
+                             f"trivial_cast({val!r}, {ty}) returns {v!r}, which is written as {lit!r} - not a literal of {_xs(ty)}", case, lit, "a valid literal")
     return None
 
 
